@@ -170,10 +170,47 @@ def fail_key(case, i):
     return sum((iv[k] for k in sp.vars), Fraction(0)) + 3 * sum(d.values(), Fraction(0))
 
 
+def _deg(e, argdeg):
+    tag = e[0]
+    if tag == "a":
+        return argdeg[e[1]]
+    if tag == "c":
+        return 0
+    if tag == "*":
+        return _deg(e[1], argdeg) + _deg(e[2], argdeg)
+    if tag == "neg":
+        return _deg(e[1], argdeg)
+    return max(_deg(e[1], argdeg), _deg(e[2], argdeg))
+
+
+def state_degree(content):
+    """largest total degree of a rate law in the state variables (through derived quantities)"""
+    deg = {k: 1 for k, _ in content["vars"]}
+    for k, d in content["derived"]:
+        deg[k] = _deg(d["e"], [deg.get(a, 0) for a in d["args"]])
+    return max([_deg(r["e"], [deg.get(a, 0) for a in r["args"]]) for _, r in content["rxns"]] + [0])
+
+
+def euler_steps(case):
+    k = case["kind"]
+    if k in ("ss", "mcscan"):
+        return int(case["cfg"]["nss"])
+    if k == "tc":
+        return len(case["tps"]) + 1
+    if k == "proto":
+        return len(case["proto"]) * case["steps"]
+    return len(case["proto"]) + len(case["tps"]) + 1
+
+
 def finalize(case):
-    """turn fail_rows into the integrator's fail keys; False if the case leaves the exact range"""
+    """turn fail_rows into the integrator's fail keys; False if the case leaves the exact range or the
+    exact rational Euler iteration of the Lean model would blow up (numerator size grows like degree^steps)"""
     if case["cfg"] is None:
-        return True
+        # shipped integrator: linear models only (a polynomial rate law can blow up in finite time and
+        # LSODA then crawls forever)
+        return state_degree(case["content"]) <= 1
+    if state_degree(case["content"]) ** euler_steps(case) > 4096:
+        return False
     try:
         keys = {fail_key(case, i) for i in range(len(case["rows"]))}  # also guards exactness at t=0
         case["cfg"]["fail"] = sorted({fexpr.rat_str(fail_key(case, i)) for i in case["fail_rows"]}, key=Fraction)
@@ -489,15 +526,31 @@ def modes_for(case, rng, thorough):
     return [["seq"], ["par", rng.choice(ws)], ["mc", rng.choice(ws)]]
 
 
+class JobTimeout(BaseException):
+    """a single case ran into the watchdog: machinery failure (exit 2), neither pass nor violation"""
+
+
+def _alarm(*_a):
+    raise JobTimeout()
+
+
 def _work(job):
     import logging
+    import signal
     import warnings
 
     warnings.filterwarnings("ignore")
     logging.disable(logging.CRITICAL)
     case, modes = job
-    S = run_oracle(case)
-    return S, [run_real(case, m) for m in modes]
+    signal.signal(signal.SIGALRM, _alarm)
+    signal.alarm(180)
+    try:
+        S = run_oracle(case)
+        return S, [run_real(case, m) for m in modes]
+    except JobTimeout:
+        raise RuntimeError("watchdog: case did not finish in 180 s: " + str(case)[:1500]) from None
+    finally:
+        signal.alarm(0)
 
 
 _pool = None
@@ -567,7 +620,7 @@ def evaluate(ctx, cases_modes):
             if ctx.driver_ok and case["cfg"] is not None and "res" in S and case["kind"] != "mcscan":
                 reqs.append(model_request(case, mode, rng_seed=ci * 31 + mi))
                 where.append((ci, mi))
-    answers = driver.call_batch(reqs) if reqs else []
+    answers = driver.call_batch(reqs, timeout=300.0) if reqs else []
     Ms = [[None] * len(modes) for _, modes in jobs]
     for (ci, mi), a in zip(where, answers):
         Ms[ci][mi] = canon_model(a, outs[ci][0])
@@ -596,7 +649,7 @@ def run(ctx):
     setup(ctx)
     rng = ctx.rng
     thorough = ctx.tier == "thorough"
-    n = ctx.n(44, 700)
+    n = ctx.n(90, 1000)
     cases = []
     # seed-independent corpus: the hand-found witnesses
     cases += corpus()
@@ -608,7 +661,7 @@ def run(ctx):
         if finalize(case):
             cases.append(case)
         else:
-            ctx.hist["skipped_inexact"] = ctx.hist.get("skipped_inexact", 0) + 1
+            ctx.hist["skipped_inexact_or_blowup"] = ctx.hist.get("skipped_inexact_or_blowup", 0) + 1
     if not ctx.proof_ok:
         ctx.notes.append("proof side broken: widening the search")
         while len(cases) < 3 * n:
